@@ -7,4 +7,6 @@ require (
 	golang.org/x/tools v0.29.0
 )
 
+require golang.org/x/sys v0.29.0 // indirect
+
 replace github.com/whoisnian/glb => /repo
